@@ -48,6 +48,9 @@ impl Display for CfgNode {
                 .functions()
                 .iter()
                 .map(|func| func.name().to_string())
+                // the owners are a hash set: sort, so that the dump of one
+                // analysis result is one text
+                .sorted()
                 .join(" | "),
         };
 
